@@ -139,6 +139,24 @@ func slots() []Slot {
 			}
 		}
 	}
+	// the same type-reference / or slots with nullable: true next to them: the
+	// null alternative must not make Check lenient towards other values
+	for _, b := range append([]Slot{}, ss...) {
+		if b.Good.Rule("nullable") != nil || (b.Good.Rule("or") == nil && !(b.Good.Rule("type") != nil && strings.HasPrefix(b.Good.Rule("type").Val, `"@`))) {
+			continue
+		}
+		if strings.HasPrefix(b.Name, "or[") && !strings.Contains(b.Name, "alt4") && !strings.Contains(b.Name, "alt1") {
+			continue // two alternative kinds of the derived or-slots are enough here
+		}
+		ns := Slot{Name: b.Name + "+nullable", Good: b.Good.Clone().With(R("nullable", "true"))}
+		for _, c := range b.Corrupt {
+			if c.Kind == gen.KNull {
+				continue
+			}
+			ns.Corrupt = append(ns.Corrupt, c.Clone().With(R("nullable", "true")))
+		}
+		ss = append(ss, ns)
+	}
 	// type lists whose corruptions are CONTAINER examples (an empty object / array
 	// where only scalar kinds, or only the other container kind, are admitted)
 	contBad := func(rules ...gen.Rule) []*gen.Node {
